@@ -113,7 +113,9 @@ vf::Result sub_D1(int w, uint16_t v, uint64_t seed) {
 struct WordOps {
     uint16_t mov_imm = 0;  // mov #imm16, W   (0 = none)
     uint16_t push = 0;     // push W
-    bool have_mov = false, have_push = false;
+    uint16_t pop = 0;      // pop W
+    uint16_t mov_abl = 0;  // mov b0l, W  (Abl operand value 0 = b0l)
+    bool have_mov = false, have_push = false, have_pop = false, have_abl = false;
 };
 WordOps find_ops(int w) {
     const std::string wn = layout::words()[w].name;
@@ -124,7 +126,9 @@ WordOps find_ops(int w) {
             continue;
         bool mov = i.form == "mov(Imm16,SttMod)" || i.form == "mov(Imm16,ArArp)" || i.form == "mov(Imm16,Register)";
         bool push = i.form == "push(ArArpSttMod)" || i.form == "push(Register)";
-        if (!mov && !push)
+        bool pop = i.form == "pop(ArArpSttMod)" || i.form == "pop(Register)";
+        bool abl = (i.form == "mov(Abl,ArArp)" || i.form == "mov(Abl,SttMod)") && i.operands[0].value == 0;
+        if (!mov && !push && !pop && !abl)
             continue;
         auto t = Teakra::Disassembler::GetTokenList((uint16_t)op, 0);
         if (t.empty() || t.back() != wn)
@@ -136,6 +140,14 @@ WordOps find_ops(int w) {
         if (push && !o.have_push) {
             o.push = (uint16_t)op;
             o.have_push = true;
+        }
+        if (pop && !o.have_pop) {
+            o.pop = (uint16_t)op;
+            o.have_pop = true;
+        }
+        if (abl && !o.have_abl) {
+            o.mov_abl = (uint16_t)op;
+            o.have_abl = true;
         }
     }
     return o;
@@ -189,6 +201,63 @@ vf::Result sub_D1i(int w, uint16_t v, uint64_t seed) {
                 return vf::Result::fail(std::string("C20:D1i:push:") + wn, std::string("push ") + wn + " stored " +
                                                                                (it == r.writes.end() ? std::string("nothing") : vf::hex(it->second)) +
                                                                                " instead of " + vf::hex(want));
+        }
+    }
+    if (o.have_pop) { // pop W: the word takes the cell at sp, sp moves up by one, nothing else changes
+        icase::ICase c;
+        c.st = st;
+        c.opcode = o.pop;
+        c.pokes.push_back({0x20000u + (uint16_t)st[flat::F_sp], v});
+        icase::IResult r = sut().exec(c);
+        if (r.outcome == 0) {
+            flat::State before = st;
+            before[flat::F_sp] = (uint16_t)(st[flat::F_sp] + 1); // the word may be written after the pointer moved (no word contains sp)
+            flat::State want = layout::write(w, before, v);
+            want[flat::F_pc] = st[flat::F_pc] + 1;
+            if (!(r.after == want)) {
+                std::string d = flat::diff(r.after, want);
+                return vf::Result::fail(std::string("C20:D1i:pop:") + wn + ":" + d.substr(0, d.find(':')),
+                                        std::string("pop ") + wn + " with " + vf::hex(v) + " on the stack: state differs from the layout (got vs expected) " + d);
+            }
+        }
+    }
+    if (o.have_abl) { // mov b0l, W: the word takes the low half of b0
+        icase::ICase c;
+        c.st = st;
+        // b0 within 32 bits (a read of an accumulator part saturates a wider value first when saturation is on; not the subject here)
+        c.st[flat::F_b + 0] = (uint64_t)(int64_t)(int32_t)(uint32_t)(((uint64_t)c.st[flat::F_b + 0] & 0xFFFF0000ull) | v); // sign-extended, as the state holds accumulators
+        c.opcode = o.mov_abl;
+        icase::IResult r = sut().exec(c);
+        if (r.outcome == 0) {
+            flat::State want = layout::write(w, c.st, v);
+            want[flat::F_pc] = st[flat::F_pc] + 1;
+            if (!(r.after == want)) {
+                std::string d = flat::diff(r.after, want);
+                return vf::Result::fail(std::string("C20:D1i:movabl:") + wn + ":" + d.substr(0, d.find(':')),
+                                        std::string("mov b0l (= ") + vf::hex(v) + "), " + wn + ": state differs from the layout (got vs expected) " + d);
+            }
+        }
+    }
+    if (std::string(wn) == "icr") { // mov #imm5, icr replaces the low five bits only (bit 4 is the write-one-to-clear view of lp)
+        static const int base = optable::find_word("mov_icr(Imm5)", {0});
+        if (base >= 0) {
+            uint16_t imm = v & 0x1F;
+            icase::ICase c;
+            c.st = st;
+            c.opcode = (uint16_t)(base | imm);
+            icase::IResult r = sut().exec(c);
+            if (r.outcome == 0 && optable::info(c.opcode).form == "mov_icr(Imm5)") {
+                flat::State want = layout::write(w, st, (uint16_t)((layout::read(w, st) & ~0x1Fu & ~0x10u) | imm));
+                want[flat::F_pc] = st[flat::F_pc] + 1;
+                if (!(r.after == want)) {
+                    std::string d = flat::diff(r.after, want);
+                    return vf::Result::fail(std::string("C20:D1i:movimm5:icr:") + d.substr(0, d.find(':')),
+                                            std::string("mov #") + vf::hex(imm) + ", icr: state differs from the layout (got vs expected) " + d +
+                                                " (lp=" + vf::hex(st[flat::F_lp]) + " bcn=" + vf::hex(st[flat::F_bcn]) + ")");
+                }
+                if (st[flat::F_lp])
+                    vf::klass("D1i: mov #imm5, icr inside an active loop");
+            }
         }
     }
     return vf::Result::pass();
